@@ -43,7 +43,7 @@ structure SubRow where
   delId : Int := 0
   priv : Tok := none
   deleted : Bool := false
-  deriving DecidableEq, Repr
+  deriving DecidableEq, Repr, Inhabited
 
 structure MsgRow where
   seq : Int
@@ -74,7 +74,7 @@ structure TopicRow where
   subs : List SubRow := []          -- in creation order
   msgs : List MsgRow := []          -- ascending seq
   dellog : List DelRow := []        -- in creation order
-  deriving DecidableEq, Repr
+  deriving DecidableEq, Repr, Inhabited
 
 /-- a loaded topic: the actor's cache (Topic, topic.go:24-127) -/
 structure Topic where
@@ -94,7 +94,7 @@ structure Topic where
   readOnly : Bool := false
   loaded : Bool := false                    -- topicStatusLoaded: "online" announced
   hasSupd : Bool := true                    -- Topic.supd exists: created by initTopicGrp (load) and initTopicNewGrp
-  deriving DecidableEq, Repr
+  deriving DecidableEq, Repr, Inhabited
 
 structure User where
   uid : Uid
